@@ -163,7 +163,8 @@ class Builder:
                         cands = lower
                     t = r.choice(cands)
                     pool.append(t)
-                i = self.emit({"op": "create_child", "on": d, "name": self.nm("u"), "ref": t["h"]})
+                props = {"k": "v%d" % self.uid} if c.get("child_props") and r.random() < 0.5 else None
+                i = self.emit({"op": "create_child", "on": d, "name": self.nm("u"), "ref": t["h"], "props": props})
                 kids.append(("e%d.0" % i, t))
         # free endpoints of this definition
         free = []
